@@ -1872,7 +1872,8 @@ class MacroExpander:
                             )
                             pre_expanded.append((arg, arg_expansion))
                         else:
-                            pre_expanded.append((arg,))
+                            # Unexpanded; may still be gathered into __VA_ARGS__.
+                            pre_expanded.append((arg, arg))
                     # Proper expand
                     replacement = macro_lookup.replace(pre_expanded)
                     if isinstance(replacement, list) and len(replacement) > 0:
